@@ -133,6 +133,7 @@ def _work_chunk(prop, master, idxs, tier, faults):
             agg["viol"].append({"seed": seed, "i": i, "faults": faults,
                                 "vclass": list(r["vclass"]), "violation": r["violation"],
                                 "ops": r["ops"], "swarm": r["swarm"],
+                                "shadow": True if family else bool((r["swarm"] or {}).get("shadow")),
                                 "prefix": [list(o) for o in chunk_ops[:-1]]})
         elif len(agg["samples"]) < 1 and gated > 0 and len(r["ops"]) <= 40:
             agg["samples"].append({"seed": seed, "faults": faults, "ops": r["ops"],
@@ -226,12 +227,13 @@ def write_replay(prop, v, ops, digest=None, cross=False, runs=None):
     path = os.path.join(rdir, "%s-%s%d.json" % (prop, tag, v["seed"]))
     doc = {"format": 1, "property": prop, "seed": v["seed"], "faults": v["faults"],
            "config": v.get("swarm"), "ops": ops, "violation": v["violation"],
-           "vclass": v["vclass"], "digest": digest}
+           "vclass": v["vclass"], "digest": digest, "shadow": bool(v.get("shadow", True))}
     if cross:
         doc["cross_interpreter"] = True
     if runs is not None:
         doc["multi_run"] = True
         doc["runs"] = runs
+        doc["shadow"] = True        # multi-run traces are minimised and replayed with shadow solves on
     with open(path, "w") as f:
         json.dump(doc, f, indent=1, default=str)
     return path
@@ -244,8 +246,8 @@ def replay_file(path, quiet=False):
     if doc.get("multi_run"):
         # earlier runs of the chunk first, each in its own world, in this process
         for ops in doc["runs"][:-1]:
-            R.replay(prop, ops)
-    r = R.replay(prop, doc["ops"])
+            R.replay(prop, ops, shadow=doc.get("shadow", True))
+    r = R.replay(prop, doc["ops"], shadow=doc.get("shadow", True))
     same_cls = r["vclass"] is not None and list(r["vclass"]) == list(doc["vclass"])
     if not quiet:
         print("replay %s: %d ops, violation=%s" % (path, len(doc["ops"]), r["violation"]))
@@ -551,7 +553,7 @@ def check_property(prop, tier, master, n_ff, n_f, workers, strat_scale=1.0):
               % "/".join(v["vclass"]))
         print("VIOLATION property=%s replay=%s" % (prop, path), flush=True)
     for vclass, v in list(classes.items())[:6]:
-        ops = shrink(prop, v["ops"], vclass, 300 if tier == "quick" else 800)
+        ops = shrink(prop, v["ops"], vclass, 300 if tier == "quick" else 800, v.get("shadow", True))
         tried = 0
         v0 = v
         while ops is None and alternates.get(vclass) and tried < 6:
@@ -559,7 +561,7 @@ def check_property(prop, tier, master, n_ff, n_f, workers, strat_scale=1.0):
             # memory address being reused): take another run that showed the same class
             v = alternates[vclass].pop(0)
             tried += 1
-            ops = shrink(prop, v["ops"], vclass, 300 if tier == "quick" else 800)
+            ops = shrink(prop, v["ops"], vclass, 300 if tier == "quick" else 800, v.get("shadow", True))
         if ops is None:
             v = v0
             # not reproducible from its own op list: does it need the earlier runs of
@@ -589,7 +591,7 @@ def check_property(prop, tier, master, n_ff, n_f, workers, strat_scale=1.0):
             print("VIOLATION property=%s replay=%s" % (prop, path), flush=True)
             continue
         A.reset()
-        rr = R.replay(prop, ops)
+        rr = R.replay(prop, ops, shadow=v.get("shadow", True))
         v2 = dict(v, violation=rr["violation"])
         path = write_replay(prop, v2, ops, rr["digest"])
         if not fresh_replay_ok(path):
